@@ -461,11 +461,11 @@ func VerifyBlob(ctx context.Context, blobVerifier BlobVerifier, blobReader io.Re
 		return ocispec.Descriptor{}, nil, err
 	}
 
-	var desc ocispec.Descriptor
-	if err = json.Unmarshal(vo.EnvelopeContent.Payload.Content, &desc); err != nil {
+	var payload envelope.Payload
+	if err = json.Unmarshal(vo.EnvelopeContent.Payload.Content, &payload); err != nil {
 		return ocispec.Descriptor{}, nil, err
 	}
-	return desc, vo, nil
+	return payload.TargetArtifact, vo, nil
 }
 
 // Verify performs signature verification on each of the notation supported
